@@ -409,6 +409,12 @@ def check_hierarchy(scfg: SCFG, flat: Flat | None = None) -> Flat:
         sr = sub.region
         if sr is None or sr.name != rname or sr.kind != r.kind:
             raise Viol("H-self", f"sub-graph of {rname} records region {getattr(sr, 'name', None)!r}/{getattr(sr, 'kind', None)!r}")
+        # the sub-graph's back reference describes the region as it is now
+        for attr in ("header", "exiting", "_jump_targets"):
+            if getattr(sr, attr) != getattr(r, attr):
+                raise Viol("H-self-stale", f"sub-graph of {rname}: its region record has {attr}={getattr(sr, attr)!r}, the region has {getattr(r, attr)!r}")
+        if getattr(sr.parent_region, "name", None) != getattr(r.parent_region, "name", None):
+            raise Viol("H-self-parent", f"sub-graph of {rname}: its region record names parent {getattr(sr.parent_region, 'name', None)!r}, the region itself {getattr(r.parent_region, 'name', None)!r}")
         # parent recorded == region that actually contains it (by name & kind)
         pr = r.parent_region
         want = flat.parent[rname]
